@@ -1,6 +1,7 @@
 ------------------------------- MODULE OutPath --------------------------------
 (* The output path of one client connection (clients.go WriteLoop / WritePacket / flushOutbuf,   *)
-(* server.go publishToClient's enqueue), at the granularity of the schedule points                *)
+(* server.go publishToClient's enqueue, DisconnectClient), at the granularity of the schedule     *)
+(* points                                                                                         *)
 (*                                                                                                *)
 (*   loop.dequeued           WriteLoop has taken a packet from the pending-write queue            *)
 (*   write.afterClosedCheck  WritePacket entered (both writers)                                   *)
@@ -11,75 +12,92 @@
 (*                           how "the peer reads slowly" is scheduled). The client lock is held.  *)
 (*   write.unlocked          the critical section is over                                         *)
 (*   read.handled            (reader only) the inbound packet has been handled                    *)
+(*   disconnect.written      (reader only) DisconnectClient has written DISCONNECT; next is       *)
+(*                           cl.Stop, which closes the connection                                 *)
 (*                                                                                                *)
 (* Two goroutines write to a connection: the write loop ("loop": queued PUBLISHes) and the        *)
-(* connection's reader ("rd": acknowledgements, PINGRESP - written directly).  One action = the   *)
-(* code one goroutine executes between two schedule points.  A goroutine that is released while   *)
-(* the other one holds the client lock does not reach a schedule point: it waits for the lock     *)
-(* (pc "waitlock") and goes on by itself when the lock is released (composed into ConnDone).      *)
+(* connection's reader ("rd": acknowledgements, PINGRESP, and the DISCONNECT that answers a       *)
+(* protocol error of the client - written directly).  One action = the code one goroutine         *)
+(* executes between two schedule points.  A goroutine that is released while the other one holds  *)
+(* the client lock does not reach a schedule point: it waits for the lock (pc "waitlock") and     *)
+(* goes on by itself when the lock is released (composed into ConnDone).                          *)
 (*                                                                                                *)
 (* Packets: [id, sz, w]; sz in bytes like the write buffer threshold Buf (ClientNetWriteBuffer-   *)
-(* Size): the harness publishes packets of 11 and 30 bytes with Buf = 24, a PINGRESP has 2;       *)
-(* Over = larger than the client's Maximum Packet Size (refused by WritePacket).                  *)
+(* Size): the harness publishes packets of 11 and 30 bytes with Buf = 24, a PINGRESP has 2, the   *)
+(* DISCONNECT 48; Over = larger than the client's Maximum Packet Size (refused by WritePacket).   *)
 (*                                                                                                *)
 (* Dev (deviations, each refuted by TLC; the reference is the code as it stands):                 *)
-(*   "NoFlushOnRefuse"    the write loop does not flush the buffer when the packet it took last   *)
-(*                        is refused (the code before b105eb9)                                    *)
-(*   "EarlyQueueRead"     the length of the queue is read before the lock is taken                *)
-(*   "UnlockBeforeWrite"  an unbuffered write releases the lock before writing to the connection  *)
-(*   "NoDropReport"       a refused PUBLISH is not reported to the hooks (the code before 4cc03c2)*)
+(*   "NoFlushOnRefuse"        the write loop does not flush the buffer when the packet it took    *)
+(*                            last is refused (the code before b105eb9)                           *)
+(*   "EarlyQueueRead"         the length of the queue is read before the lock is taken            *)
+(*   "UnlockBeforeWrite"      an unbuffered write releases the lock before writing                *)
+(*   "NoDropReport"           a refused PUBLISH is not reported to the hooks (before 4cc03c2)     *)
+(*   "WritesAfterDisconnect"  WritePacket does not refuse packets after a DISCONNECT has been     *)
+(*                            written (the code before the repair of this round)                  *)
 EXTENDS Integers, Sequences, FiniteSets, TLC
 
 CONSTANTS Cap,        \* capacity of the pending-write queue (MaximumClientWritesPending)
-          Buf,        \* write buffer threshold in size units
+          Buf,        \* write buffer threshold in bytes
           MaxPub,     \* publishes the environment makes
-          MaxDir,     \* direct writes (PINGREQs the client sends)
+          MaxDir,     \* PINGREQs the client sends
           Sizes,      \* sizes of published packets
           Dev,
+          EnvOn,      \* {"disc"}: the client may send a second CONNECT
           MaxHist
 
 Over == 99
 DirSz == 2      \* a PINGRESP
+DiscSz == 48    \* DISCONNECT 0x82 with its reason string (answer to a second CONNECT)
+DiscId == 300
 W == {"loop", "rd"}
 NoPk == [id |-> 0, sz |-> 0, w |-> "-"]
 
-VARIABLES q, cur, pc, lock, outbuf, pend, fl, qseen, wire, sent, dropped, acc, npub, ndir, inwrite, maxw, hist
-vars == <<q, cur, pc, lock, outbuf, pend, fl, qseen, wire, sent, dropped, acc, npub, ndir, inwrite, maxw, hist>>
-view == <<q, cur, pc, lock, outbuf, pend, fl, qseen, wire, sent, dropped, acc, npub, ndir, inwrite, maxw>>
+VARIABLES q, cur, pc, lock, outbuf, pend, fl, qseen, wire, sent, dropped, acc, npub, ndir, inwrite, maxw, closed, disc, refd, hist
+vars == <<q, cur, pc, lock, outbuf, pend, fl, qseen, wire, sent, dropped, acc, npub, ndir, inwrite, maxw, closed, disc, refd, hist>>
+view == <<q, cur, pc, lock, outbuf, pend, fl, qseen, wire, sent, dropped, acc, npub, ndir, inwrite, maxw, closed, disc, refd>>
 
 Other(w) == IF w = "loop" THEN "rd" ELSE "loop"
 Size(s) == IF s = <<>> THEN 0 ELSE LET f[i \in 0..Len(s)] == IF i = 0 THEN 0 ELSE f[i - 1] + s[i].sz IN f[Len(s)]
 Ids(s) == [i \in 1..Len(s) |-> s[i].id]
 Log(w, g, og) == hist' = IF Len(hist) < MaxHist THEN Append(hist, <<w, g, og>>) ELSE hist      \* og: where the OTHER goroutine gets to
+Max(a, b) == IF a > b THEN a ELSE b
 
 Init ==
     /\ q = <<>> /\ cur = [w \in W |-> NoPk] /\ pc = [w \in W |-> "idle"] /\ lock = "none" /\ outbuf = <<>>
     /\ pend = [w \in W |-> <<>>] /\ fl = [w \in W |-> FALSE] /\ qseen = [w \in W |-> 0]
-    /\ wire = <<>> /\ sent = {} /\ dropped = {} /\ acc = {} /\ npub = 0 /\ ndir = 0 /\ inwrite = {} /\ maxw = 0 /\ hist = <<>>
+    /\ wire = <<>> /\ sent = {} /\ dropped = {} /\ acc = {} /\ npub = 0 /\ ndir = 0 /\ inwrite = {} /\ maxw = 0
+    /\ closed = FALSE /\ disc = FALSE /\ refd = [w \in W |-> FALSE] /\ hist = <<>>
 
 (* ---------------------------------------------------------------- the critical section *)
+Guard == "WritesAfterDisconnect" \notin Dev
 (* what WritePacket decides under the lock: [ob: the buffer afterwards, to: next pc, pend: bytes handed to the     *)
-(* connection, fl: the connection write is a flush of the buffer]                                                  *)
-Decide(w, ob, qlen) ==
-    LET p == cur[w] IN
-    IF qlen = 0 THEN
-        IF ob = <<>> THEN [ob |-> ob, to |-> "conn", pend |-> <<p>>, fl |-> FALSE]
-        ELSE [ob |-> Append(ob, p), to |-> "conn", pend |-> Append(ob, p), fl |-> TRUE]
-    ELSE IF ob = <<>> /\ p.sz >= Buf THEN [ob |-> ob, to |-> "conn", pend |-> <<p>>, fl |-> FALSE]
+(* connection, fl: the connection write is a flush of the buffer, ref: the packet is refused because a DISCONNECT   *)
+(* has been written, setd: this packet is the DISCONNECT]                                                          *)
+Decide(w, ob, qlen0) ==
+    LET p == cur[w]
+        last == Guard /\ p.id = DiscId
+        qlen == IF last THEN 0 ELSE qlen0        \* a DISCONNECT is not left waiting in the buffer for later writes
+    IN
+    IF Guard /\ disc THEN [ob |-> ob, to |-> "unlocked", pend |-> <<>>, fl |-> FALSE, ref |-> TRUE, setd |-> FALSE]
+    ELSE IF qlen = 0 THEN
+        IF ob = <<>> THEN [ob |-> ob, to |-> "conn", pend |-> <<p>>, fl |-> FALSE, ref |-> FALSE, setd |-> last]
+        ELSE [ob |-> Append(ob, p), to |-> "conn", pend |-> Append(ob, p), fl |-> TRUE, ref |-> FALSE, setd |-> last]
+    ELSE IF ob = <<>> /\ p.sz >= Buf THEN [ob |-> ob, to |-> "conn", pend |-> <<p>>, fl |-> FALSE, ref |-> FALSE, setd |-> last]
     ELSE LET nb == Append(ob, p) IN
-         IF Size(nb) < Buf THEN [ob |-> nb, to |-> "unlocked", pend |-> <<>>, fl |-> FALSE]
-         ELSE [ob |-> nb, to |-> "conn", pend |-> nb, fl |-> TRUE]
+         IF Size(nb) < Buf THEN [ob |-> nb, to |-> "unlocked", pend |-> <<>>, fl |-> FALSE, ref |-> FALSE, setd |-> last]
+         ELSE [ob |-> nb, to |-> "conn", pend |-> nb, fl |-> TRUE, ref |-> FALSE, setd |-> last]
 
 QLen(w) == IF "EarlyQueueRead" \in Dev THEN qseen[w] ELSE Len(q)
 
 (* the write loop after a refused packet: lock; flush if nothing is queued; unlock; back to the select *)
-AfterRefusal(ob) ==
-    IF "NoFlushOnRefuse" \notin Dev /\ Len(q) = 0 /\ ob # <<>>
+AfterRefusal(ob, qq) ==
+    IF "NoFlushOnRefuse" \notin Dev /\ Len(qq) = 0 /\ ob # <<>>
     THEN [to |-> "rconn", pend |-> ob, fl |-> TRUE]
     ELSE [to |-> "next", pend |-> <<>>, fl |-> FALSE]
 
 (* the write loop returns to its select: it takes the next queued packet at once *)
 LoopNext(qq) == IF qq = <<>> THEN [pc |-> "idle", cur |-> NoPk, q |-> qq] ELSE [pc |-> "deq", cur |-> Head(qq), q |-> Tail(qq)]
+Arr(n) == IF n.pc = "deq" THEN "loop.dequeued" ELSE "idle"
 
 (* ---------------------------------------------------------------- environment *)
 (* a message for the client: publishToClient's non-blocking send; an idle write loop takes it at once *)
@@ -95,7 +113,7 @@ Publish(sz) ==
          ELSE /\ dropped' = dropped \cup {p.id} /\ UNCHANGED <<q, cur, pc, acc>>        \* reported: OnPublishDropped
     /\ Log("env", IF sz = Over THEN "pub:over" ELSE IF sz >= Buf THEN "pub:big" ELSE "pub:small",
            IF pc["loop"] = "idle" THEN "loop.dequeued" ELSE IF Len(q) < Cap THEN "queued" ELSE "dropped")
-    /\ UNCHANGED <<lock, outbuf, pend, fl, qseen, wire, sent, ndir, inwrite, maxw>>
+    /\ UNCHANGED <<lock, outbuf, pend, fl, qseen, wire, sent, ndir, inwrite, maxw, closed, disc, refd>>
 
 (* the client sends PINGREQ: the reader handles it and enters WritePacket(PINGRESP) *)
 Ping ==
@@ -105,14 +123,23 @@ Ping ==
     /\ acc' = acc \cup {200 + ndir + 1}
     /\ pc' = [pc EXCEPT !["rd"] = "enter"]
     /\ Log("env", "ping", "write.afterClosedCheck")
-    /\ UNCHANGED <<q, lock, outbuf, pend, fl, qseen, wire, sent, dropped, npub, inwrite, maxw>>
+    /\ UNCHANGED <<q, lock, outbuf, pend, fl, qseen, wire, sent, dropped, npub, inwrite, maxw, closed, disc, refd>>
+
+(* the client sends a second CONNECT: the reader answers with DISCONNECT 0x82 (DisconnectClient) and stops the client *)
+BadPacket ==
+    /\ DiscId \notin acc /\ pc["rd"] = "idle" /\ "disc" \in EnvOn
+    /\ cur' = [cur EXCEPT !["rd"] = [id |-> DiscId, sz |-> DiscSz, w |-> "rd"]]
+    /\ acc' = acc \cup {DiscId}
+    /\ pc' = [pc EXCEPT !["rd"] = "enter"]
+    /\ Log("env", "bad", "write.afterClosedCheck")
+    /\ UNCHANGED <<q, lock, outbuf, pend, fl, qseen, wire, sent, dropped, npub, ndir, inwrite, maxw, closed, disc, refd>>
 
 (* ---------------------------------------------------------------- writer steps *)
 Dequeued ==                                           \* loop.dequeued -> write.afterClosedCheck
     /\ pc["loop"] = "deq"
     /\ pc' = [pc EXCEPT !["loop"] = "enter"]
     /\ Log("loop", "write.afterClosedCheck", "")
-    /\ UNCHANGED <<q, cur, lock, outbuf, pend, fl, qseen, wire, sent, dropped, acc, npub, ndir, inwrite, maxw>>
+    /\ UNCHANGED <<q, cur, lock, outbuf, pend, fl, qseen, wire, sent, dropped, acc, npub, ndir, inwrite, maxw, closed, disc, refd>>
 
 (* write.afterClosedCheck -> write.encoded; an oversize packet is refused here *)
 Enter(w) ==
@@ -120,46 +147,51 @@ Enter(w) ==
     /\ pc' = [pc EXCEPT ![w] = "encoded"]
     /\ qseen' = [qseen EXCEPT ![w] = Len(q)]
     /\ Log(w, "write.encoded", "")
-    /\ UNCHANGED <<q, cur, lock, outbuf, pend, fl, wire, sent, dropped, acc, npub, ndir, inwrite, maxw>>
+    /\ UNCHANGED <<q, cur, lock, outbuf, pend, fl, wire, sent, dropped, acc, npub, ndir, inwrite, maxw, closed, disc, refd>>
 
-(* refusal of an oversize packet by the write loop: reported, then (lock free) flush or next packet *)
+(* the write loop's handling of a refused packet (WritePacket returned an error): lock (or wait for it); flush if    *)
+(* nothing is queued; unlock; take the next packet                                                                   *)
+RefusalBody ==
+    IF lock # "none" THEN
+         /\ pc' = [pc EXCEPT !["loop"] = "rwaitlock"] /\ Log("loop", "blocked", "")
+         /\ UNCHANGED <<q, cur, lock, pend, fl, inwrite, maxw>>
+    ELSE LET r == AfterRefusal(outbuf, q) IN
+         IF r.to = "rconn" THEN
+              /\ pc' = [pc EXCEPT !["loop"] = "rconn"] /\ lock' = "loop"
+              /\ pend' = [pend EXCEPT !["loop"] = r.pend] /\ fl' = [fl EXCEPT !["loop"] = TRUE]
+              /\ inwrite' = inwrite \cup {"loop"} /\ maxw' = Max(maxw, Cardinality(inwrite'))
+              /\ Log("loop", "conn.write", "") /\ UNCHANGED <<q, cur>>
+         ELSE LET n == LoopNext(q) IN
+              /\ pc' = [pc EXCEPT !["loop"] = n.pc] /\ cur' = [cur EXCEPT !["loop"] = n.cur] /\ q' = n.q
+              /\ Log("loop", Arr(n), "")
+              /\ UNCHANGED <<lock, pend, fl, inwrite, maxw>>
+
+(* refusal of an oversize packet (write.afterClosedCheck -> ...): reported to the hooks *)
 Refuse ==
     /\ pc["loop"] = "enter" /\ cur["loop"].sz = Over
     /\ dropped' = IF "NoDropReport" \in Dev THEN dropped ELSE dropped \cup {cur["loop"].id}
-    /\ IF lock # "none" THEN
-            /\ pc' = [pc EXCEPT !["loop"] = "rwaitlock"] /\ Log("loop", "blocked", "")
-            /\ UNCHANGED <<q, cur, lock, pend, fl, inwrite, maxw>>
-       ELSE LET r == AfterRefusal(outbuf) IN
-            IF r.to = "rconn" THEN
-                 /\ pc' = [pc EXCEPT !["loop"] = "rconn"] /\ lock' = "loop"
-                 /\ pend' = [pend EXCEPT !["loop"] = r.pend] /\ fl' = [fl EXCEPT !["loop"] = TRUE]
-                 /\ inwrite' = inwrite \cup {"loop"} /\ maxw' = IF Cardinality(inwrite') > maxw THEN Cardinality(inwrite') ELSE maxw
-                 /\ Log("loop", "conn.write", "") /\ UNCHANGED <<q, cur>>
-            ELSE LET n == LoopNext(q) IN
-                 /\ pc' = [pc EXCEPT !["loop"] = n.pc] /\ cur' = [cur EXCEPT !["loop"] = n.cur] /\ q' = n.q
-                 /\ Log("loop", IF n.pc = "deq" THEN "loop.dequeued" ELSE "idle", "")
-                 /\ UNCHANGED <<lock, pend, fl, inwrite, maxw>>
-    /\ UNCHANGED <<outbuf, qseen, wire, sent, acc, npub, ndir>>
+    /\ RefusalBody
+    /\ UNCHANGED <<outbuf, qseen, wire, sent, acc, npub, ndir, closed, disc, refd>>
 
 (* write.encoded -> the critical section, up to the connection write or to write.unlocked *)
 Critical(w) ==
     /\ pc[w] = "encoded"
     /\ IF lock # "none" THEN
             /\ pc' = [pc EXCEPT ![w] = "waitlock"] /\ Log(w, "blocked", "")
-            /\ UNCHANGED <<lock, outbuf, pend, fl, inwrite, maxw>>
+            /\ UNCHANGED <<lock, outbuf, pend, fl, inwrite, maxw, disc, refd>>
        ELSE LET d == Decide(w, outbuf, QLen(w)) IN
             /\ outbuf' = d.ob /\ pend' = [pend EXCEPT ![w] = d.pend] /\ fl' = [fl EXCEPT ![w] = d.fl]
             /\ pc' = [pc EXCEPT ![w] = d.to]
+            /\ disc' = (disc \/ d.setd) /\ refd' = [refd EXCEPT ![w] = d.ref]
             /\ IF d.to = "conn" THEN
                     /\ lock' = IF "UnlockBeforeWrite" \in Dev /\ ~d.fl /\ QLen(w) = 0 THEN "none" ELSE w
-                    /\ inwrite' = inwrite \cup {w} /\ maxw' = IF Cardinality(inwrite') > maxw THEN Cardinality(inwrite') ELSE maxw
+                    /\ inwrite' = inwrite \cup {w} /\ maxw' = Max(maxw, Cardinality(inwrite'))
                     /\ Log(w, "conn.write", "")
                ELSE /\ Log(w, "write.unlocked", "") /\ UNCHANGED <<lock, inwrite, maxw>>
-    /\ UNCHANGED <<q, cur, qseen, wire, sent, dropped, acc, npub, ndir>>
+    /\ UNCHANGED <<q, cur, qseen, wire, sent, dropped, acc, npub, ndir, closed>>
 
 (* the connection write of w returns: bytes are on the wire, the lock is released; a goroutine waiting for the lock *)
 (* runs through its own critical section (or refusal handling) in the same step, up to ITS next schedule point       *)
-Arr(n) == IF n.pc = "deq" THEN "loop.dequeued" ELSE "idle"
 ConnDone(w) ==
     /\ pc[w] \in {"conn", "rconn"}
     /\ LET o == Other(w)
@@ -175,63 +207,82 @@ ConnDone(w) ==
                   /\ outbuf' = d.ob
                   /\ pend' = [pend EXCEPT ![w] = <<>>, ![o] = d.pend] /\ fl' = [fl EXCEPT ![w] = FALSE, ![o] = d.fl]
                   /\ pc' = [pc EXCEPT ![w] = n.pc, ![o] = d.to]
+                  /\ disc' = (disc \/ d.setd) /\ refd' = [refd EXCEPT ![o] = d.ref]
                   /\ lock' = IF d.to = "conn" THEN (IF "UnlockBeforeWrite" \in Dev /\ ~d.fl /\ Len(n.q) = 0 THEN "none" ELSE o) ELSE "none"
                   /\ inwrite' = (inwrite \ {w}) \cup (IF d.to = "conn" THEN {o} ELSE {})
                   /\ cur' = [cur EXCEPT ![w] = n.cur] /\ q' = n.q
                   /\ Log(w, wg, IF d.to = "conn" THEN "conn.write" ELSE "write.unlocked")
              ELSE IF pc[o] = "rwaitlock" /\ free THEN        \* o is the loop in its refusal handling (so w = rd, n is trivial)
-                  LET r == AfterRefusal(ob1) IN
+                  LET r == AfterRefusal(ob1, n.q) IN
                   IF r.to = "rconn" THEN
                        /\ outbuf' = ob1
                        /\ pend' = [pend EXCEPT ![w] = <<>>, ![o] = r.pend] /\ fl' = [fl EXCEPT ![w] = FALSE, ![o] = TRUE]
                        /\ pc' = [pc EXCEPT ![w] = n.pc, ![o] = "rconn"] /\ lock' = o
                        /\ inwrite' = (inwrite \ {w}) \cup {o}
                        /\ cur' = [cur EXCEPT ![w] = n.cur] /\ q' = n.q
-                       /\ Log(w, wg, "conn.write")
+                       /\ Log(w, wg, "conn.write") /\ UNCHANGED <<disc, refd>>
                   ELSE LET n2 == LoopNext(n.q) IN
                        /\ outbuf' = ob1
                        /\ pend' = [pend EXCEPT ![w] = <<>>] /\ fl' = [fl EXCEPT ![w] = FALSE]
                        /\ pc' = [pc EXCEPT ![w] = n.pc, ![o] = n2.pc] /\ lock' = "none"
                        /\ inwrite' = inwrite \ {w}
                        /\ cur' = [cur EXCEPT ![w] = n.cur, ![o] = n2.cur] /\ q' = n2.q
-                       /\ Log(w, wg, Arr(n2))
+                       /\ Log(w, wg, Arr(n2)) /\ UNCHANGED <<disc, refd>>
              ELSE /\ outbuf' = ob1
                   /\ pend' = [pend EXCEPT ![w] = <<>>] /\ fl' = [fl EXCEPT ![w] = FALSE]
                   /\ pc' = [pc EXCEPT ![w] = n.pc]
                   /\ lock' = IF lock = w THEN "none" ELSE lock
                   /\ inwrite' = inwrite \ {w}
                   /\ cur' = [cur EXCEPT ![w] = n.cur] /\ q' = n.q
-                  /\ Log(w, wg, "")
-    /\ UNCHANGED <<qseen, sent, dropped, acc, npub, ndir>>
+                  /\ Log(w, wg, "") /\ UNCHANGED <<disc, refd>>
+    /\ UNCHANGED <<qseen, sent, dropped, acc, npub, ndir, closed>>
 
 (* write.unlocked -> the packet is reported as sent (OnPacketSent); the loop takes the next packet, the reader *)
-(* returns to its read loop                                                                                    *)
+(* returns to its read loop (after a DISCONNECT: to disconnect.written)                                       *)
 Finish(w) ==
-    /\ pc[w] = "unlocked"
+    /\ pc[w] = "unlocked" /\ ~refd[w]
     /\ sent' = sent \cup {cur[w].id}
     /\ IF w = "loop" THEN
             LET n == LoopNext(q) IN
             /\ pc' = [pc EXCEPT ![w] = n.pc] /\ cur' = [cur EXCEPT ![w] = n.cur] /\ q' = n.q
             /\ Log(w, Arr(n), "")
+       ELSE IF cur[w].id = DiscId THEN
+            /\ pc' = [pc EXCEPT ![w] = "discwritten"] /\ UNCHANGED <<cur, q>> /\ Log(w, "disconnect.written", "")
        ELSE /\ pc' = [pc EXCEPT ![w] = "handled"] /\ UNCHANGED <<cur, q>> /\ Log(w, "read.handled", "")
-    /\ UNCHANGED <<lock, outbuf, pend, fl, qseen, wire, dropped, acc, npub, ndir, inwrite, maxw>>
+    /\ UNCHANGED <<lock, outbuf, pend, fl, qseen, wire, dropped, acc, npub, ndir, inwrite, maxw, closed, disc, refd>>
+
+(* write.unlocked with a packet refused because a DISCONNECT has been written (only the write loop can be there): *)
+(* not reported as sent; the loop handles the error like any refusal                                              *)
+FinishRefused ==
+    /\ pc["loop"] = "unlocked" /\ refd["loop"]
+    /\ refd' = [refd EXCEPT !["loop"] = FALSE]
+    /\ RefusalBody
+    /\ UNCHANGED <<outbuf, qseen, wire, sent, dropped, acc, npub, ndir, closed, disc>>
 
 Handled ==
     /\ pc["rd"] = "handled"
     /\ pc' = [pc EXCEPT !["rd"] = "idle"] /\ cur' = [cur EXCEPT !["rd"] = NoPk]
     /\ Log("rd", "idle", "")
-    /\ UNCHANGED <<q, lock, outbuf, pend, fl, qseen, wire, sent, dropped, acc, npub, ndir, inwrite, maxw>>
+    /\ UNCHANGED <<q, lock, outbuf, pend, fl, qseen, wire, sent, dropped, acc, npub, ndir, inwrite, maxw, closed, disc, refd>>
+
+(* disconnect.written -> cl.Stop: the connection is closed; the model of a run ends here *)
+StopAct ==
+    /\ pc["rd"] = "discwritten"
+    /\ closed' = TRUE /\ pc' = [pc EXCEPT !["rd"] = "gone"]
+    /\ Log("rd", "read.handled", "")
+    /\ UNCHANGED <<q, cur, lock, outbuf, pend, fl, qseen, wire, sent, dropped, acc, npub, ndir, inwrite, maxw, disc, refd>>
 
 Next ==
-    \/ \E sz \in Sizes : Publish(sz)
-    \/ Ping
-    \/ Dequeued \/ Refuse \/ Handled
-    \/ \E w \in W : Enter(w) \/ Critical(w) \/ ConnDone(w) \/ Finish(w)
+    /\ ~closed
+    /\ \/ \E sz \in Sizes : Publish(sz)
+       \/ Ping \/ BadPacket
+       \/ Dequeued \/ Refuse \/ Handled \/ StopAct \/ FinishRefused
+       \/ \E w \in W : Enter(w) \/ Critical(w) \/ ConnDone(w) \/ Finish(w)
 
 Spec == Init /\ [][Next]_vars
 
 (* ---------------------------------------------------------------- properties *)
-TypeOK == /\ pc \in [W -> {"idle", "deq", "enter", "encoded", "waitlock", "rwaitlock", "conn", "rconn", "unlocked", "handled"}]
+TypeOK == /\ pc \in [W -> {"idle", "deq", "enter", "encoded", "waitlock", "rwaitlock", "conn", "rconn", "unlocked", "handled", "discwritten", "gone"}]
           /\ lock \in W \cup {"none"} /\ Len(q) <= Cap
 
 Quiescent == pc = [w \in W |-> "idle"] /\ q = <<>>
@@ -249,6 +300,11 @@ SentOnWire == Quiescent => sent \subseteq Range(wire)
 NoDup == \A i, j \in 1..Len(wire) : i # j => wire[i] # wire[j]
 Accounted == Quiescent => \A id \in acc : id \in Range(wire) \/ id \in dropped
 NoGhost == Range(wire) \subseteq acc /\ Range(wire) \cap dropped = {}
+(* C23: nothing follows a DISCONNECT *)
+LastIsDisconnect == \A i \in 1..Len(wire) : wire[i] = DiscId => i = Len(wire)
+(* ... and a DISCONNECT does not wait in the write buffer for later writes: when DisconnectClient goes on to close  *)
+(* the connection the DISCONNECT is on the wire                                                                    *)
+DisconnectWritten == pc["rd"] = "discwritten" => DiscId \in Range(wire)
 (* C12: each writer's packets are on the wire in its order *)
 Ordered == \A i, j \in 1..Len(wire) : i < j /\ (wire[i] > 200) = (wire[j] > 200) => wire[i] < wire[j]
 =============================================================================
